@@ -66,6 +66,10 @@ if fid == 'F-42':
     t1 = set_value(source=parse(w['doc']), npath=w['ops'][0][1], value=w['ops'][0][2])
     t2 = remove_value(source=parse(t1), npath=w['ops'][1][1])
     out(t2 != w['doc'], 'result %r' % t2)
+if fid == 'F-43':
+    t1 = set_value(source=parse(w['doc']), npath=w['ops'][0][1], value=w['ops'][0][2])
+    t2 = set_value(source=parse(t1), npath=w['ops'][1][1], value=w['ops'][1][2])
+    out(t2 != t1, 'once %r twice %r' % (t1, t2))
 if fid == 'F-37':
     text, errs, _ = apply_ops(w['doc'], w['ops'])
     out(errs == [None] and not text.lstrip().startswith('let'), 'emitted %r' % text)
